@@ -25,6 +25,7 @@ type opCtx struct {
 	noBuf   bool
 	quiet   bool
 	structH bool
+	srcTree interface{} // set by StdLibCompatibleTree: the tree handed to StdLibCompatibleMap / Slice
 }
 
 // targets are the Decode destinations; they live for a whole run.
@@ -157,14 +158,32 @@ var apiOps = []apiOp{
 	{name: "NextToken", zeroAlloc: true, run: func(x *opCtx, d []byte) Outcome { v, p, err := rjson.NextToken(d); return pev(v, p, err) }},
 	{name: "NextTokenType", zeroAlloc: true, run: func(x *opCtx, d []byte) Outcome { v, p, err := rjson.NextTokenType(d); return pev(v, p, err) }},
 	{name: "DecodeBool", zeroAlloc: true, run: func(x *opCtx, d []byte) Outcome { p, err := rjson.DecodeBool(d, &x.tg.b); return pev(x.tg.b, p, err) }},
-	{name: "DecodeFloat64", zeroAlloc: true, run: func(x *opCtx, d []byte) Outcome { p, err := rjson.DecodeFloat64(d, &x.tg.f); return pev(x.tg.f, p, err) }},
-	{name: "DecodeInt64", zeroAlloc: true, run: func(x *opCtx, d []byte) Outcome { p, err := rjson.DecodeInt64(d, &x.tg.i64); return pev(x.tg.i64, p, err) }},
-	{name: "DecodeInt32", zeroAlloc: true, run: func(x *opCtx, d []byte) Outcome { p, err := rjson.DecodeInt32(d, &x.tg.i32); return pev(x.tg.i32, p, err) }},
+	{name: "DecodeFloat64", zeroAlloc: true, run: func(x *opCtx, d []byte) Outcome {
+		p, err := rjson.DecodeFloat64(d, &x.tg.f)
+		return pev(x.tg.f, p, err)
+	}},
+	{name: "DecodeInt64", zeroAlloc: true, run: func(x *opCtx, d []byte) Outcome {
+		p, err := rjson.DecodeInt64(d, &x.tg.i64)
+		return pev(x.tg.i64, p, err)
+	}},
+	{name: "DecodeInt32", zeroAlloc: true, run: func(x *opCtx, d []byte) Outcome {
+		p, err := rjson.DecodeInt32(d, &x.tg.i32)
+		return pev(x.tg.i32, p, err)
+	}},
 	{name: "DecodeInt", zeroAlloc: true, run: func(x *opCtx, d []byte) Outcome { p, err := rjson.DecodeInt(d, &x.tg.i); return pev(x.tg.i, p, err) }},
-	{name: "DecodeUint64", zeroAlloc: true, run: func(x *opCtx, d []byte) Outcome { p, err := rjson.DecodeUint64(d, &x.tg.u64); return pev(x.tg.u64, p, err) }},
-	{name: "DecodeUint32", zeroAlloc: true, run: func(x *opCtx, d []byte) Outcome { p, err := rjson.DecodeUint32(d, &x.tg.u32); return pev(x.tg.u32, p, err) }},
+	{name: "DecodeUint64", zeroAlloc: true, run: func(x *opCtx, d []byte) Outcome {
+		p, err := rjson.DecodeUint64(d, &x.tg.u64)
+		return pev(x.tg.u64, p, err)
+	}},
+	{name: "DecodeUint32", zeroAlloc: true, run: func(x *opCtx, d []byte) Outcome {
+		p, err := rjson.DecodeUint32(d, &x.tg.u32)
+		return pev(x.tg.u32, p, err)
+	}},
 	{name: "DecodeUint", zeroAlloc: true, run: func(x *opCtx, d []byte) Outcome { p, err := rjson.DecodeUint(d, &x.tg.u); return pev(x.tg.u, p, err) }},
-	{name: "DecodeString", run: func(x *opCtx, d []byte) Outcome { p, err := rjson.DecodeString(d, &x.tg.s, x.scratch); return pev(x.tg.s, p, err) }},
+	{name: "DecodeString", run: func(x *opCtx, d []byte) Outcome {
+		p, err := rjson.DecodeString(d, &x.tg.s, x.scratch)
+		return pev(x.tg.s, p, err)
+	}},
 	{name: "TokenType.String", run: func(x *opCtx, d []byte) Outcome {
 		tt, p, err := rjson.NextTokenType(d)
 		s := tt.String()
@@ -186,6 +205,7 @@ var apiOps = []apiOp{
 	}},
 	{name: "StdLibCompatibleTree", usesPool: true, run: func(x *opCtx, d []byte) Outcome {
 		v, p, err := rjson.ReadValue(d)
+		x.srcTree = v // the argument of the helper: the caller still owns it
 		switch t := v.(type) {
 		case map[string]interface{}:
 			return pev(rjson.StdLibCompatibleMap(t), p, err)
